@@ -52,6 +52,16 @@ def prefix_groups(sch, root):
     return [[mk(b[:n], 2) for n in (4, 3, 2, 1, 0, 3)], [mk(b[:2], n) for n in (4, 3, 2, 1, 0, 3)]]
 
 
+def array_groups(sch, root):
+    """groups whose members differ ONLY in the elements of one primitive array of a dictionary struct
+    (Metric.HistogramBounds), same and shorter lengths: an in-place write to a clone must not reach the original"""
+    if root != 'Metrics':
+        return []
+    f = lambda x: '%016x' % (0x3ff0000000000000 + (x << 44))
+    mk = lambda bounds: [[[]], ['6d', '', '', '2', [], bounds, '0', False], ['75', [], '3'], ['', '', '', [], '0'], [], ['1', '2', [1, '4'], []]]
+    return [[mk([f(1), f(2), f(3), f(4)]), mk([f(9), f(8), f(7), f(6)]), mk([f(5), f(5)]), mk([f(2), f(2), f(2), f(2)]), mk([f(7)]), mk([f(1), f(2), f(3), f(4)])]]
+
+
 def bytes_groups(sch, root):
     """groups whose members differ ONLY in one bytes position (trace id, span id, parent span id, a Bytes
     attribute value): values of 8 and of 16 bytes whose byte order and word order disagree, with values of
@@ -103,6 +113,9 @@ def main():
             if hname == 'otel':
                 for gi, fg in enumerate(float_groups(hs, root)):
                     cases.append(dict(id=f'{hname}:{root}:floats{gi}', root=root, mode='c09', vals=fg, freeze=False))
+                for gi, ag in enumerate(array_groups(hs, root)):
+                    for fz in (True, False):
+                        cases.append(dict(id=f'{hname}:{root}:arrays{gi}{"z" if fz else ""}', root=root, mode='c09', vals=ag, freeze=fz))
                 for gi, bg in enumerate(bytes_groups(hs, root)):
                     cases.append(dict(id=f'{hname}:{root}:bytes{gi}', root=root, mode='c09', vals=bg, freeze=False))
                 for gi, pg in enumerate(prefix_groups(hs, root)):
